@@ -23,6 +23,7 @@ ROOT = os.path.dirname(HERE)
 sys.path.insert(0, HERE)
 import rustfun  # noqa: E402
 
+TIE_FILES = ["SrcFunTie.v", "SrcFunTie2.v"]
 CONSTS = {"P64": 1 << 64, "P56": 1 << 56, "P32": 1 << 32}
 BUDGET = 250000
 NRANDOM = 4000
@@ -86,13 +87,28 @@ def parse_lemmas(path):
         line1 = txt[:q].count("\n") + 1
         binders = []
         body = stmt
-        fm = re.match(r"forall\s+((?:\([^()]*\)\s*)+),\s*(.*)$", stmt)
-        if fm:
-            for grp in re.findall(r"\(([^()]*)\)", fm.group(1)):
-                ns, ty = grp.split(":")
+        if stmt.startswith("forall"):
+            i, groups = len("forall"), []
+            while i < len(stmt) and stmt[i] != ",":
+                if stmt[i] == "(":
+                    d, j = 0, i
+                    while True:
+                        if stmt[j] == "(":
+                            d += 1
+                        elif stmt[j] == ")":
+                            d -= 1
+                            if d == 0:
+                                break
+                        j += 1
+                    groups.append(stmt[i + 1:j])
+                    i = j + 1
+                else:
+                    i += 1
+            for grp in groups:
+                ns, ty = grp.split(":", 1)
                 for n in ns.split():
                     binders.append((n, ty.strip()))
-            body = fm.group(2)
+            body = stmt[i + 1:].strip()
         parts = [p.strip() for p in split_top(body, "->")]
         hyps, concl = parts[:-1], parts[-1]
         eq = split_top(concl, " = ")
@@ -116,6 +132,8 @@ def const_val(s):
 
 
 def hyp_bool(h):
+    if h.endswith(" = true"):
+        return "(%s)" % h[:-7]
     for op, b in ((" <= ", "<=?"), (" < ", "<?"), (" <> ", None), (" = ", "=?")):
         p = split_top(h, op)
         if len(p) == 2:
@@ -179,66 +197,238 @@ def rand_value(rng, lo, hi):
     return rng.randint(lo, hi)
 
 
-def sample_file(preamble, lem, seed=1):
+BYTE_LISTS = None
+
+
+def byte_lists():
+    """empty, singletons, all-00, all-FF, prefixes of each other, equal lists, differing at the first / last
+    position, lengths 0..9 and 15..17"""
+    global BYTE_LISTS
+    if BYTE_LISTS is None:
+        ls = [[], [0], [255], [1], [97], [98], [0, 0], [255, 255], [97, 98], [97, 99], [98, 98], [97, 0], [0, 97], [97, 255],
+              [97, 98, 99], [97, 98, 100], [96, 98, 99], [97, 98, 99, 100], [1, 2, 3, 4, 5, 6, 7], [1, 2, 3, 4, 5, 6, 7, 8],
+              [255] * 8, [0] * 8, [1, 2, 3, 4, 5, 6, 7, 8, 9], [255] * 9, [128, 1, 0, 255, 7]]
+        for n in (3, 4, 5, 6, 7, 15, 16, 17):
+            ls.append([0] * n)
+            ls.append([255] * n)
+            ls.append([(17 * i + 3) % 256 for i in range(n)])
+        ls.append([(17 * i + 3) % 256 for i in range(15)] + [9])         # differs from the 16-list at the last position
+        ls.append([4] + [(17 * i + 3) % 256 for i in range(1, 16)])        # ... at the first position
+        seen, out = set(), []
+        for l in ls:
+            if tuple(l) not in seen:
+                seen.add(tuple(l))
+                out.append(l)
+        BYTE_LISTS = out
+    return BYTE_LISTS
+
+
+def ty_parse(s):
+    """Coq type text -> ('prod', [..]) | ('app', head, [args])"""
+    toks = re.findall(r"[A-Za-z_][A-Za-z0-9_.']*|[()*]", s)
+    pos = [0]
+    def atom():
+        t = toks[pos[0]]
+        pos[0] += 1
+        if t == "(":
+            r = prod()
+            pos[0] += 1
+            return r
+        return ("app", t, [])
+    def app():
+        h = atom()
+        args = []
+        while pos[0] < len(toks) and toks[pos[0]] not in (")", "*"):
+            args.append(atom())
+        if args and h[0] == "app":
+            return ("app", h[1], h[2] + args)
+        return h
+    def prod():
+        items = [app()]
+        while pos[0] < len(toks) and toks[pos[0]] == "*":
+            pos[0] += 1
+            items.append(app())
+        return items[0] if len(items) == 1 else ("prod", items)
+    return prod()
+
+
+def ty_text(t):
+    if t[0] == "prod":
+        return "(" + " * ".join(ty_text(x) for x in t[1]) + ")"
+    return t[1] if not t[2] else "(%s %s)" % (t[1], " ".join(ty_text(x) for x in t[2]))
+
+
+def inductives(root):
+    """inductive types of the generated file: name -> (params, [(ctor, [arg type text])])"""
+    out = {}
+    try:
+        txt = open(os.path.join(root, "coq", "Generated", "SrcFuns.v")).read()
+    except OSError:
+        return out
+    for m in re.finditer(r"^Inductive (\w+)((?: \([^()]*\))*) : Type :=\n((?:  \|[^\n]*\n?)+)", txt, re.M):
+        params = [x.split(":")[0].strip() for x in re.findall(r"\(([^()]*)\)", m.group(2))]
+        ctors = []
+        for line in m.group(3).split("\n"):
+            line = line.strip().rstrip(".")
+            if not line.startswith("|"):
+                continue
+            cm = re.match(r"\|\s*(\w+)(.*)$", line)
+            args = [a.split(":", 1)[1].strip() for a in re.findall(r"\((x\d+ : [^()]*(?:\([^()]*\)[^()]*)*)\)", cm.group(2))]
+            ctors.append((cm.group(1), args))
+        out[m.group(1)] = (params, ctors)
+    return out
+
+
+def cand_expr(t, nums, inds):
+    """Coq expression of type list <t> with the directed sample of that type, and its size; nums() gives the N sample"""
+    if t[0] == "prod":
+        e, n = cand_expr(t[1][0], nums, inds)
+        for x in t[1][1:]:
+            e2, n2 = cand_expr(x, nums, inds)
+            e, n = "(list_prod %s %s)" % (e, e2), n * n2
+        return e, n
+    h, args = t[1], t[2]
+    if h == "N":
+        c = nums()
+        return "[%s]" % "; ".join(str(x) for x in c), len(c)
+    if h == "bool":
+        return "[true; false]", 2
+    if h == "unit":
+        return "[tt]", 1
+    if h == "nat":
+        return "[0; 1; 2; 3; 4; 5; 8; 9; 17]%nat", 9
+    if h == "comparison":
+        return "[Eq; Lt; Gt]", 3
+    if h == "list" and args and args[0] == ("app", "N", []):
+        return "sf_lists", len(byte_lists())
+    if h in ("key",):
+        return "sf_lists", len(byte_lists())
+    if h == "option":
+        e, n = cand_expr(args[0], nums, inds)
+        return "(None :: map Some %s)" % e, n + 1
+    if h in ("St", "src_St"):
+        return "sf_states", 8
+    if h in inds:
+        params, ctors = inds[h]
+        ptxt = [ty_text(a) for a in args]
+        parts, total = [], 0
+        for c, atys in ctors:
+            head = " ".join([c] + ptxt)
+            if not atys:
+                parts.append("[%s]" % head)
+                total += 1
+                continue
+            sub = []
+            for at in atys:
+                for pn, pv in zip(params, ptxt):
+                    at = re.sub(r"\b%s\b" % re.escape(pn), pv, at)
+                sub.append(cand_expr(ty_parse(at), nums, inds))
+            if len(sub) == 1:
+                parts.append("(map (fun x => %s x) %s)" % (head, sub[0][0]))
+                total += sub[0][1]
+            elif len(sub) == 2:
+                parts.append("(map (fun x => %s (fst x) (snd x)) (list_prod %s %s))" % (head, sub[0][0], sub[1][0]))
+                total += sub[0][1] * sub[1][1]
+            else:
+                raise ValueError("constructor %s with %d arguments" % (c, len(sub)))
+        return "(" + " ++ ".join(parts) + ")", total
+    raise ValueError("no sample generator for the type " + ty_text(t))
+
+
+SAMPLE_AUTOMATA = [
+    "{| St := N; start := 5; is_match := fun s => N.testbit s 0; can_match := fun s => N.testbit s 1; will_always_match := fun s => N.testbit s 2; accept := fun s b => (s * 3 + b + 1) mod 8; accept_eof := fun _ => None |}",
+    "{| St := N; start := 2; is_match := fun s => N.testbit s 2; can_match := fun s => N.testbit s 0; will_always_match := fun s => N.testbit s 1; accept := fun s b => (s * 5 + 2 * b + 3) mod 8; accept_eof := fun _ => None |}",
+]
+
+
+def sample_file(preamble, lem, seed=1, root=ROOT):
     """Coq text that searches the directed sample for an input on which lhs and rhs of the lemma differ"""
-    bs = lem["binders"]
-    names = [n for n, _ in bs]
     rng = random.Random(seed)
+    inds = inductives(root)
     out = [preamble, "", "Unset Default Timeout.",
            "Fixpoint sf_find {A B} (l : list A) (f : A -> option B) : option B :=",
            "  match l with [] => None | x :: r => match f x with Some y => Some y | None => sf_find r f end end.",
-           "Definition sf_orelse {A} (a b : option A) : option A := match a with Some x => Some x | None => b end."]
+           "Definition sf_orelse {A} (a b : option A) : option A := match a with Some x => Some x | None => b end.",
+           "Definition sf_states : list N := [0; 1; 2; 3; 4; 5; 6; 7].",
+           "Definition sf_lists : list (list N) := [%s]." % "; ".join("[%s]" % "; ".join(str(x) for x in l) for l in byte_lists())]
+    # component automata are fixed sample automata whose three predicates differ on every state
+    bs = []
+    nauts = 0
+    for n, ty in lem["binders"]:
+        if ty == "automaton":
+            out.append("Definition %s : automaton := %s." % (n, SAMPLE_AUTOMATA[nauts % len(SAMPLE_AUTOMATA)]))
+            nauts += 1
+        else:
+            bs.append((n, ty))
+    names = [n for n, _ in bs]
     if not bs:
         out.append("Definition sf_bad : bool := negb (sf_eqb (%s) (%s))." % (lem["lhs"], lem["rhs"]))
         out.append("Eval vm_compute in (if sf_bad then Some tt else None).")
         out.append("Eval vm_compute in (%s)." % lem["lhs"])
         out.append("Eval vm_compute in (%s)." % lem["rhs"])
         return "\n".join(out) + "\n", []
-    cands, rng_bounds, full = [], [], []
+    # a statement that converts to unary nat cannot be evaluated on huge numbers
+    cap = 70000 if re.search(r"to_nat|onat", lem["stmt"]) else (1 << 64) - 1
+    nsets = {}
     for n, ty in bs:
-        if ty == "bool":
-            cands.append(["true", "false"])
-            rng_bounds.append(None)
-        else:
+        if ty == "N":
             lo, hi = bounds(n, lem["hyps"])
-            cands.append(candidates(lo, hi, len(bs)))
-            rng_bounds.append((lo, hi))
-    full = [list(c) for c in cands]
-    # keep the product within the budget by thinning the largest candidate sets
-    def prod():
+            hi = min(hi, cap)
+            nsets[n] = (candidates(lo, hi, len(bs)), (lo, hi))
+    full = {n: list(c) for n, (c, _) in nsets.items()}
+    generic = thin(candidates(0, cap, 3), 40)
+    def build():
+        cs = []
+        for n, ty in bs:
+            cs.append(cand_expr(ty_parse(ty), (lambda n=n: nsets[n][0] if n in nsets else generic), inds))
+        return cs
+    cs = build()
+    def prod(cs):
         p = 1
-        for c in cands:
-            p *= len(c)
+        for _, k in cs:
+            p *= k
         return p
-    while prod() > BUDGET:
-        i = max(range(len(cands)), key=lambda j: len(cands[j]))
-        cands[i] = thin(cands[i], max(6, int(len(cands[i]) * 0.7)))
+    while prod(cs) > BUDGET and nsets:
+        n = max(nsets, key=lambda k: len(nsets[k][0]))
+        if len(nsets[n][0]) <= 6:
+            break
+        nsets[n] = (thin(nsets[n][0], max(6, int(len(nsets[n][0]) * 0.7))), nsets[n][1])
+        cs = build()
     args = " ".join("(%s : %s)" % (n, t) for n, t in bs)
     dom = " && ".join(hyp_bool(h) for h in lem["hyps"]) or "true"
     tup = "(" + ", ".join(names) + ")" if len(names) > 1 else names[0]
-    tupty = " * ".join(t for _, t in bs)
+    tupty = " * ".join("(%s)" % t for _, t in bs)
     out.append("Definition sf_lhs %s := %s." % (args, lem["lhs"]))
     out.append("Definition sf_rhs %s := %s." % (args, lem["rhs"]))
     out.append("Definition sf_bad %s : bool := (%s) && negb (sf_eqb (sf_lhs %s) (sf_rhs %s))." % (args, dom, " ".join(names), " ".join(names)))
-    for (n, t), c in zip(bs, cands):
-        out.append("Definition sf_c_%s : list %s := [%s]." % (n, t, "; ".join(str(x) for x in c)))
+    for (n, t), (e, _) in zip(bs, cs):
+        out.append("Definition sf_c_%s : list (%s) := %s." % (n, t, e))
     inner = "(if sf_bad %s then Some %s else None)" % (" ".join(names), tup)
     for n, t in reversed(bs):
         inner = "(sf_find sf_c_%s (fun %s => %s))" % (n, n, inner)
     out.append("Definition sf_search : option (%s) := %s." % (tupty, inner))
-    rnd = []
-    for _ in range(NRANDOM if len(bs) < 3 else 5 * NRANDOM):
-        # each coordinate: a boundary value of its (unthinned) candidate set, or a pseudo-random value
-        rnd.append("(" + ", ".join(str(rng.choice(full[j])) if (b is None or rng.random() < 0.6) else str(rand_value(rng, b[0], b[1]))
-                                   for j, b in enumerate(rng_bounds)) + ")")
     pat = ("'" + tup) if len(names) > 1 else names[0]
-    out.append("Definition sf_rnd : list (%s) := [%s]." % (tupty, "; ".join(r if len(names) > 1 else r[1:-1] for r in rnd)))
-    out.append("Definition sf_search_rnd : option (%s) := sf_find sf_rnd (fun %s => if sf_bad %s then Some %s else None)." % (tupty, pat, " ".join(names), tup))
-    out.append("Definition sf_found : option (%s) := sf_orelse sf_search sf_search_rnd." % tupty)
+    if all(t in ("N", "bool") for _, t in bs):
+        rnd = []
+        for _ in range(NRANDOM if len(bs) < 3 else 5 * NRANDOM):
+            row = []
+            for n, t in bs:
+                if t == "bool":
+                    row.append(rng.choice(["true", "false"]))
+                elif rng.random() < 0.6:
+                    row.append(str(rng.choice(full[n])))
+                else:
+                    row.append(str(rand_value(rng, nsets[n][1][0], nsets[n][1][1])))
+            rnd.append("(" + ", ".join(row) + ")" if len(row) > 1 else row[0])
+        out.append("Definition sf_rnd : list (%s) := [%s]." % (tupty, "; ".join(rnd)))
+        out.append("Definition sf_search_rnd : option (%s) := sf_find sf_rnd (fun %s => if sf_bad %s then Some %s else None)." % (tupty, pat, " ".join(names), tup))
+        out.append("Definition sf_found : option (%s) := sf_orelse sf_search sf_search_rnd." % tupty)
+    else:
+        out.append("Definition sf_found : option (%s) := sf_search." % tupty)
     out.append("Eval vm_compute in sf_found.")
     out.append("Eval vm_compute in (option_map (fun %s => sf_lhs %s) sf_found)." % (pat, " ".join(names)))
     out.append("Eval vm_compute in (option_map (fun %s => sf_rhs %s) sf_found)." % (pat, " ".join(names)))
-    return "\n".join(out) + "\n", [len(c) for c in cands]
+    return "\n".join(out) + "\n", [k for _, k in cs]
 
 
 def run_sample(root, preamble, lem, tag, log):
@@ -247,7 +437,10 @@ def run_sample(root, preamble, lem, tag, log):
     os.makedirs(d, exist_ok=True)
     base = "SrcFunSample_%s_%s" % (tag, lem["name"])
     path = os.path.join(d, base + ".v")
-    txt, sizes = sample_file(preamble, lem)
+    try:
+        txt, sizes = sample_file(preamble, lem, root=root)
+    except (ValueError, IndexError, KeyError) as ex:
+        return {"error": "no sample: %s" % ex}
     open(path, "w").write(txt)
     t0 = time.time()
     rc, out = sh(["coqc", "-Q", ".", "FstV", "-w", "none", os.path.join("cases", base + ".v")], cwd=coq, timeout=600)
@@ -271,12 +464,27 @@ def run_sample(root, preamble, lem, tag, log):
     if found.startswith("None"):
         return {"found": None, "searched": sizes}
     inp = re.sub(r"^Some\s*", "", found).strip()
+    free = [n for n, t in lem["binders"] if t != "automaton"]
     nums = re.findall(r"\d+|true|false|tt", inp)
-    return {"found": dict(zip([n for n, _ in lem["binders"]], nums)) if lem["binders"] else {},
+    simple = all(t in ("N", "bool") for n, t in lem["binders"] if t != "automaton")
+    return {"found": (dict(zip(free, nums)) if simple else {"(%s)" % ", ".join(free): inp}) if free else {},
             "src_value": re.sub(r"^Some\s*", "", vals[-2]), "model_value": re.sub(r"^Some\s*", "", vals[-1]), "searched": sizes}
 
 
 # ------------------------------------------------------------------ main loop
+def signature(text):
+    """parameter types, and the names of the parameters that are fields of self, of a generated definition"""
+    head = text.split(":=", 1)[0]
+    groups = re.findall(r"\(([^():]*) : ([^()]*(?:\([^()]*\)[^()]*)*)\)", head)
+    tys, fields = [], []
+    for ns, ty in groups:
+        for n in ns.split():
+            tys.append(ty.strip())
+            if n.startswith("self_") and n != "self_":
+                fields.append(n)
+    return tys, fields
+
+
 def changed_functions(order_texts, pinned):
     return set(n for n, t in order_texts.items() if n not in pinned or pinned[n][1].strip() != t.strip())
 
@@ -296,19 +504,24 @@ def run(repo, root, log, tag=None):
     tag = tag or str(os.getpid())
     coq = os.path.join(root, "coq")
     out_v = os.path.join(coq, "Generated", "SrcFuns.v")
-    tie_v = os.path.join(coq, "SrcFunTie.v")
-    res = {"translated": [], "tied_by_proof": [], "fallback_to_pinned": [], "unproved_no_difference": [], "broken": [],
+    tie_files = [os.path.join(coq, f) for f in TIE_FILES if os.path.exists(os.path.join(coq, f))]
+    res = {"not_comparable": [], "translated": [], "tied_by_proof": [], "fallback_to_pinned": [], "unproved_no_difference": [], "broken": [],
            "untranslatable": {}, "rounds": 0, "ok": True, "detail": ""}
     pinned, _ = rustfun.split_pinned(open(rustfun.PINNED_PATH).read())
     use_pinned = {}
-    preamble, lemmas = parse_lemmas(tie_v)
+    lemmas = []
+    for tf in tie_files:
+        pre_, ls_ = parse_lemmas(tf)
+        for l in ls_:
+            l["file"], l["preamble"] = os.path.basename(tf), pre_
+        lemmas += ls_
     t_start = time.time()
     # decisions of an earlier run on exactly the same source text, tie file and pinned fragments are reused, so a
     # rewritten function costs its rebuild + sampling once, not on every check
     import hashlib
     cache_path = os.path.join(coq, "Generated", "srcfun_decisions.json")
     txt0 = rustfun.generate(repo, root, {})[0]
-    key = hashlib.sha256((txt0 + "\0" + open(tie_v).read() + "\0" + open(rustfun.PINNED_PATH).read()).encode()).hexdigest()
+    key = hashlib.sha256((txt0 + "\0" + "".join(open(tf).read() for tf in tie_files) + "\0" + open(rustfun.PINNED_PATH).read()).encode()).hexdigest()
     cached = None
     try:
         c = json.load(open(cache_path))
@@ -318,8 +531,8 @@ def run(repo, root, log, tag=None):
         pass
     if cached:
         use_pinned = dict(cached["use_pinned"])
-        for k in ("unproved_no_difference", "broken"):
-            res[k] = cached["res"][k]
+        for k in ("unproved_no_difference", "broken", "not_comparable"):
+            res[k] = cached["res"].get(k, [])
         res["reused_decisions"] = True
     for rnd in range(12):
         res["rounds"] = rnd + 1
@@ -335,8 +548,8 @@ def run(repo, root, log, tag=None):
                 if f["status"] == "fallback_to_pinned" and f["target"]:
                     res["untranslatable"][n] = f["reason"]
         t0 = time.time()
-        rc, out = sh(["make", "-j4", "SrcFunTie.vo"], cwd=coq, timeout=900)
-        log.write("== srcfun round %d: make SrcFunTie.vo rc=%d %.1fs\n%s\n" % (rnd, rc, time.time() - t0, out[-1500:] if rc else ""))
+        rc, out = sh(["make", "-j4"] + [f + "o" for f in TIE_FILES], cwd=coq, timeout=900)
+        log.write("== srcfun round %d: make SrcFunTie*.vo rc=%d %.1fs\n%s\n" % (rnd, rc, time.time() - t0, out[-1500:] if rc else ""))
         if rc == 0:
             break
         m = re.search(r'File "\./([^"]+)", line (\d+)[^\n]*\n(Error:[\s\S]{0,400})', out)
@@ -357,27 +570,36 @@ def run(repo, root, log, tag=None):
             use_pinned[f] = "its translation does not typecheck (%s)" % err.split("\n")[0][:120]
             res["unproved_no_difference"].append(f)
             continue
-        if not fname.endswith("SrcFunTie.v"):
+        if os.path.basename(fname) not in TIE_FILES:
             res.update(ok=False, detail="%s line %d: %s" % (fname, line, err))
             break
-        lem = [l for l in lemmas if l["line0"] <= line <= l["line1"]]
+        lem = [l for l in lemmas if l["file"] == os.path.basename(fname) and l["line0"] <= line <= l["line1"]]
         if not lem:
-            res.update(ok=False, detail="SrcFunTie.v line %d (outside the tie lemmas): %s" % (line, err))
+            res.update(ok=False, detail="%s line %d (outside the tie lemmas): %s" % (fname, line, err))
             break
         lem = lem[0]
         blame = sorted(closure(lem["fns"], texts) & changed & set(pinned))
         if not blame:
             res.update(ok=False, detail="SrcFunTie.v lemma %s fails although every function it mentions has its pinned text: %s" % (lem["name"], err))
             break
-        s = run_sample(root, preamble, lem, tag, log)
+        resig = [f for f in blame if signature(texts[f]) != signature(pinned[f][1])]
+        if resig:
+            # the data the function works on is represented differently (other fields of self, other parameter
+            # types): its values cannot be compared with the model argument by argument
+            res["not_comparable"].append({"lemma": lem["name"], "functions": blame, "detail": "signature of %s changed: %s -> %s" % (
+                resig[0], signature(pinned[resig[0]][1]), signature(texts[resig[0]]))})
+            for f in blame:
+                use_pinned[f] = "signature changed (representation of the data); tie lemma %s not applicable" % lem["name"]
+            continue
+        s = run_sample(root, lem["preamble"], lem, tag, log)
         if s.get("error"):
-            # the sample cannot even be evaluated (e.g. a changed signature): not comparable -> treated as a difference
-            res["broken"].append({"lemma": lem["name"], "functions": blame, "input": None, "src_value": None, "model_value": None,
-                                  "statement": lem["stmt"], "detail": "sampling file does not compile: " + s["error"][-300:]})
+            # the two sides cannot be evaluated against each other (a changed signature or type, e.g. an enum turned
+            # into a struct): nothing to compare, no alarm; the differential run still compares model and code
+            res["not_comparable"].append({"lemma": lem["name"], "functions": blame, "detail": s["error"][-300:]})
         elif s["found"] is None:
             res["unproved_no_difference"] += [f for f in blame if f not in res["unproved_no_difference"]]
         else:
-            res["broken"].append({"lemma": lem["name"], "functions": blame, "input": s["found"], "src_value": s["src_value"],
+            res["broken"].append({"lemma": lem["name"], "file": lem["file"], "functions": blame, "input": s["found"], "src_value": s["src_value"],
                                   "model_value": s["model_value"], "statement": lem["stmt"], "proof_error": err[:300]})
         for f in blame:
             use_pinned[f] = "tie lemma %s not proved for the current translation" % lem["name"]
@@ -389,31 +611,37 @@ def run(repo, root, log, tag=None):
     res["seconds"] = round(time.time() - t_start, 2)
     if res["ok"] and not cached:
         try:
-            json.dump({"key": key, "use_pinned": use_pinned, "res": {k: res[k] for k in ("unproved_no_difference", "broken")}}, open(cache_path, "w"))
+            json.dump({"key": key, "use_pinned": use_pinned, "res": {k: res[k] for k in ("unproved_no_difference", "broken", "not_comparable")}}, open(cache_path, "w"))
         except OSError:
             pass
     return res
 
 
-def selftest(repo, root):
+def selftest(repo, root, only=None):
     """run the sampler on every lemma of the present tree: no difference may be reported"""
-    preamble, lemmas = parse_lemmas(os.path.join(root, "coq", "SrcFunTie.v"))
     bad = 0
 
     class L:
         def write(self, s):
             pass
-    for lem in lemmas:
-        s = run_sample(root, preamble, lem, "self", L())
-        ok = s.get("found", 1) is None
-        bad += 0 if ok else 1
-        print("%-48s %s %s" % (lem["name"], "no difference" if ok else "PROBLEM", s.get("searched") if ok else s))
+    for tf in TIE_FILES:
+        preamble, lemmas = parse_lemmas(os.path.join(root, "coq", tf))
+        for lem in lemmas:
+            if only and only not in lem["name"]:
+                continue
+            t0 = time.time()
+            s = run_sample(root, preamble, lem, "self", L())
+            ok = s.get("found", 1) is None
+            bad += 0 if ok else 1
+            print("%-48s %s %s %.1fs" % (lem["name"], "no difference" if ok else "PROBLEM", s.get("searched") if ok else s, time.time() - t0))
+            sys.stdout.flush()
     return bad
 
 
 if __name__ == "__main__":
     repo = sys.argv[1] if len(sys.argv) > 1 and not sys.argv[1].startswith("--") else os.environ.get("VERIF_REPO", "/repo")
     if "--selftest" in sys.argv:
-        sys.exit(1 if selftest(repo, ROOT) else 0)
+        only = [a.split("=", 1)[1] for a in sys.argv if a.startswith("--only=")]
+        sys.exit(1 if selftest(repo, ROOT, only[0] if only else None) else 0)
     r = run(repo, ROOT, sys.stdout)
     print(json.dumps(r, indent=1))
